@@ -2513,6 +2513,10 @@ class Parameters:
                 type.__setattr__(cls, param_name, previous)
             else:
                 type.__delattr__(cls, param_name)
+            # A validator may have read (and thereby cached) the namespace
+            # while the rejected Parameter was installed
+            for kls in descendents(cls):
+                kls._param__private.params.clear()
             raise
         # delete cached params() of the class and its subclasses
         for kls in descendents(cls):
